@@ -240,6 +240,11 @@ func (c *fileConn) QueryContext(ctx context.Context, query string, args []driver
 }
 
 func (stmt *fileStmt) query(values []string) (driver.Rows, error) {
+	// the direct query path of database/sql doesn't check the number of arguments.
+	if n := numInput(stmt.q); len(values) < n {
+		return nil, fmt.Errorf("expected %d arguments, got %d", n, len(values))
+	}
+
 	q := queryparser.ReplacePlaceholders(stmt.q, values)
 
 	qq := convert.ToQuery(q)
@@ -464,6 +469,10 @@ func (stmt *grpcStmt) Query(args []driver.Value) (driver.Rows, error) {
 }
 
 func (stmt *grpcStmt) query(values []string) (driver.Rows, error) {
+	if n := numInput(stmt.q); len(values) < n {
+		return nil, fmt.Errorf("expected %d arguments, got %d", n, len(values))
+	}
+
 	q := queryparser.ReplacePlaceholders(stmt.q, values)
 
 	result, err := stmt.c.client.Query(context.Background(), &updogv1.QueryRequest{
